@@ -249,6 +249,7 @@ impl Sh {
 			.map(|m| m as usize + 1)
 			.unwrap_or(1);
 		let versioning = plan.opts.versioning;
+		let plan_has_faults = plan.faults.is_empty();
 		Rc::new(Sh {
 			plan,
 			root,
@@ -266,7 +267,7 @@ impl Sh {
 			gates: RefCell::new(Vec::new()),
 			free_run: Cell::new(false),
 			txn_counter: Cell::new(0),
-			faults_active: Cell::new(false),
+			faults_active: Cell::new(!plan_has_faults),
 			checkpoint_model: RefCell::new(None),
 			step_ix: Cell::new(0),
 			failed_commits: RefCell::new(Vec::new()),
@@ -305,11 +306,26 @@ impl Sh {
 				}
 			}
 		}
+		// known finding "post_wal_failure_not_undone": under injected faults, writes of a
+		// commit that failed after its WAL append may be (partly) visible
+		if explained.is_none() && self.faults_active.get() {
+			let m = self.model.borrow();
+			let ghost = |c: &Commit| c.status == Status::Failed;
+			if m.commits.iter().any(|c| ghost(c)) {
+				let ok = keys.iter().all(|k| match got(k) {
+					Some(g) => m.possible2(k, h, &|_| false, &ghost).contains(&g),
+					None => true,
+				});
+				if ok {
+					explained = Some("post_wal_failure_not_undone".to_string());
+				}
+			}
+		}
 		let mut v = self.viol.borrow_mut();
 		if v.is_none() {
 			*v = Some(Violation {
 				class: class.to_string(),
-				detail: format!("step {}: {}{}", self.step_ix.get(), detail, if explained.is_some() { " [explained by known finding rotation_straddle]" } else { "" }),
+				detail: format!("step {}: {}{}", self.step_ix.get(), detail, explained.as_ref().map(|e| format!(" [explained by known finding {}]", e)).unwrap_or_default()),
 				explained,
 			});
 		}
